@@ -115,8 +115,35 @@ P_C10(pre, e) ==
                          /\ Walk(s2, Tail(qs))
           IN Walk(pre, e.reqs))
 
+\* the blotter views as the code exposes them (recorded at the end of every update) against a recount
+ViewsOK(pre, e) ==
+    "bl" \in DOMAIN e =>
+    \A mid \in DOMAIN e.bl :
+       LET V == e.bl[mid].v   F == e.bl[mid].f
+           mine(sn) == {o \in DOMAIN pre.ord : pre.ord[o].mid = mid /\ pre.ord[o].inbl /\ pre.ord[o].strat = sn}
+       IN /\ \A o \in DOMAIN V :
+               (Has(pre.ord, o) /\ pre.ord[o].inbl) =>
+                 /\ Ck("C15", "ExactlyOnceInEveryView",
+                        V[o].orders = 1 /\ V[o].strategy = 1 /\ V[o].stratsel = 1 /\ V[o].client = 1
+                        /\ V[o].clientstrat = 1 /\ V[o].trade = 1 /\ V[o].livecnt = (IF pre.ord[o].live THEN 1 ELSE 0),
+                        <<o, V[o]>>)
+                 /\ Ck("C15", "LookupIdentity", V[o].byid /\ V[o].tradelookup, <<o, V[o]>>)
+          \* an order that was refused is in no view
+          /\ \A o \in DOMAIN V :
+               (Has(pre.ord, o) /\ ~pre.ord[o].inbl) =>
+                 Ck("C15", "NotPlacedNotInBlotter", V[o].orders = 0 /\ V[o].strategy = 0 /\ V[o].livecnt = 0, <<o, V[o]>>)
+          /\ Ck("C15", "BlotterSize", e.bl[mid].n = Cardinality({o \in DOMAIN pre.ord : pre.ord[o].mid = mid /\ pre.ord[o].inbl}), <<mid, e.bl[mid].n>>)
+          /\ \A sn \in DOMAIN F :
+               Ck("C15", "FiltersExact",
+                  /\ SeqToSet(F[sn].all) = mine(sn)
+                  /\ SeqToSet(F[sn].executable) = {o \in mine(sn) : pre.ord[o].status = "EXECUTABLE"}
+                  /\ SeqToSet(F[sn].complete) = {o \in mine(sn) : pre.ord[o].status = "COMPLETE"}
+                  /\ SeqToSet(F[sn].matched) = {o \in mine(sn) : pre.ord[o].m > 0},
+                  <<mid, sn, F[sn]>>)
+
 P_C15(pre, e) ==
     LET post == e.st IN
+    /\ ViewsOK(post, e)
     /\ (EndOfUpdate(e) =>
           Ck("C15", "LiveListComplete", LiveListIncomplete(pre) = {}, LiveListIncomplete(pre)))
     /\ Ck("C15", "RemovedOnlyAfterComplete", LeftLiveWhileIncomplete(pre, post) = {},
@@ -136,8 +163,11 @@ P_C07(pre, e) ==
 Env(e, instr) == [pkgmver |-> e.a.mver, bpe |-> e.a.bpe, fullmatch |-> e.a.fullmatch,
                   pt |-> e.a.book.pt, instr |-> instr]
 
+\* avg (the average matched price to the cent) is compared unless the exact average sits on a
+\* rounding tie, where binary floating point decides
 EngineDiff(got, exp) ==
     {f \in {"m", "frags", "can", "lap", "void", "piq", "mver"} : got[f] # exp[f]}
+    \cup (IF got.avg # exp.avg /\ ~WapTie(exp.frags) THEN {"avg"} ELSE {})
 
 PlaceConforms(pre, e) ==
     LET post == e.st IN
@@ -242,6 +272,24 @@ SumOver(T, F(_)) ==
     LET RECURSIVE go(_)
         go(U) == IF U = {} THEN 0 ELSE LET x == CHOOSE y \in U : TRUE IN F(x) + go(U \ {x})
     IN go(T)
+
+\* the volume queued ahead of an order "at its price when it arrived": the size shown at that price on
+\* the side the order joins, in the book it was placed against - recomputed here from the logged book
+QueuedAhead(o, rb) == SizeAt(IF o.side = "BACK" THEN rb.atl ELSE rb.atb, o.price)
+JoinsQueue(o, rb) ==   \* priced behind the best price of the side it could take from: nothing matches on arrival
+    LET same == IF o.side = "BACK" THEN rb.atb ELSE rb.atl
+    IN same = <<>> \/ (IF o.side = "BACK" THEN o.price > same[1][1] ELSE o.price < same[1][1])
+P_C06X(pre, e) ==
+    (e.ev = "exec" /\ e.a.kind \in {"PLACE", "REPLACE"} /\ e.a.err = "" /\ ~e.a.fullmatch) =>
+    LET post == e.st
+        placed == IF e.a.kind = "PLACE" THEN SeqToSet(PkgOrders(pre, e.a.orders))
+                  ELSE {e.a.rlab[o] : o \in DOMAIN e.a.rlab}
+    IN \A o \in placed :
+         (Has(post.ord, o) /\ post.ord[o].bet /\ post.ord[o].type = "LIMIT" /\ post.ord[o].selk \in DOMAIN e.a.book.r
+          /\ post.ord[o].tif # "FOK" /\ post.ord[o].m = 0 /\ Rem(post.ord[o]) > 0
+          /\ JoinsQueue(post.ord[o], e.a.book.r[post.ord[o].selk])) =>
+            Ck("C06", "QueueAtArrival", post.ord[o].piq = QueuedAhead(post.ord[o], e.a.book.r[post.ord[o].selk]),
+               <<o, post.ord[o].side, post.ord[o].price, post.ord[o].piq, "queued", QueuedAhead(post.ord[o], e.a.book.r[post.ord[o].selk])>>)
 
 P_C06(pre, e) ==
     e.ev = "mw" /\ e.a.active =>
@@ -490,6 +538,14 @@ P_C01(pre, e) ==
           Ck("C01", "RefusedNeverSent",
              \E k \in DOMAIN e.reqs : e.reqs[k].o = e.pkgs[i].orders[j] /\ e.reqs[k].r = "ACCEPT" /\ e.reqs[k].kind = e.pkgs[i].kind,
              <<e.pkgs[i].kind, e.pkgs[i].orders[j]>>))
+    \* ... and an accepted order is handed over once per acceptance: a second hand-over would put an
+    \* unvalidated, uncounted copy of the bet on the exchange
+    /\ (e.ev = "cb" => \A i \in DOMAIN e.pkgs : \A j \in DOMAIN e.pkgs[i].orders :
+          LET k == e.pkgs[i].kind  o == e.pkgs[i].orders[j]
+              handed == Cardinality({<<i2, j2>> \in (DOMAIN e.pkgs) \X (1..20) :
+                                       j2 \in DOMAIN e.pkgs[i2].orders /\ e.pkgs[i2].kind = k /\ e.pkgs[i2].orders[j2] = o})
+              accepted == Cardinality({q \in DOMAIN e.reqs : e.reqs[q].o = o /\ e.reqs[q].kind = k /\ e.reqs[q].r = "ACCEPT"})
+          IN Ck("C01", "HandedOncePerAcceptance", handed <= accepted, <<k, o, handed, accepted>>))
     \* consequence: under acknowledgement discipline the worst-case loss per selection stays within the limit
     /\ (e.ev = "upd" =>
           \A sn \in DOMAIN e.a.limits :
@@ -596,7 +652,7 @@ StepOK(pre, e) ==
     /\ ("M" \in Props => /\ (e.ev = "exec" => PlaceConforms(pre, e))
                          /\ (e.ev = "mw" => MwConforms(pre, e) /\ TradedConforms(e)))
     /\ ("C05" \in Props => P_C05(pre, e))
-    /\ ("C06" \in Props => P_C06(pre, e))
+    /\ ("C06" \in Props => P_C06(pre, e) /\ P_C06X(pre, e))
     /\ ("C09" \in Props => P_C09(pre, e))
     /\ ("C08" \in Props => P_C08(pre, e))
     /\ ("C20" \in Props => P_C20(pre, e))
